@@ -17,8 +17,8 @@ BASES = [
     dict(D=1, target="abs", box="log", noise="auto", sigma=0.2, options=dict(max_fun_evals=40, noise_final_samples=2)),
     dict(D=2, target="sphere", box="sym", noise="declared", sigma=0.3, cons="ball", options=dict(max_fun_evals=40, noise_final_samples=1)),
 ]
-KINDS_ALL = ["raise", "raise_key", "nan", "inf", "ninf", "complex", "vector", "none"]
-KINDS_HE = ["notpair", "sd_zero", "sd_neg", "sd_nan", "sd_inf", "sd_none"]
+KINDS_ALL = ["raise", "raise_key", "nan", "inf", "ninf", "complex", "vector", "none", "complex0", "npcomplex", "npcomplex0", "npnan", "vlist"]
+KINDS_HE = ["notpair", "sd_zero", "sd_neg", "sd_nan", "sd_inf", "sd_none", "sd_complex0"]
 
 
 def fault_plan(ctx):
@@ -31,8 +31,12 @@ def fault_plan(ctx):
         else:
             ks = list(range(1, budget + 1))
         kinds = KINDS_ALL + (KINDS_HE if b["noise"] == "specified" else [])
+        nfs = b["options"].get("noise_final_samples", 0) if b["noise"] != "det" else 0
+        special = {1, 2, 3, budget - nfs + 1, budget}     # first call, noise test / first design point, first and last final sample
         for j, k in enumerate(ks):
-            if ctx.quick:
+            if k in special:
+                kk = kinds                                  # calls that take a special path (not recorded / first): every fault kind
+            elif ctx.quick:
                 kk = [kinds[(j + bi) % len(kinds)], kinds[(2 * j + 3) % len(kinds)]]
             else:
                 kk = [kinds[(j + i) % len(kinds)] for i in range(4)]
